@@ -318,6 +318,13 @@ func Run(r *core.Run) {
 			add("reveal/other-key", withField("revealValue", ops.Reveal(other, code)))
 			add("reveal/sha512-of-same-key", withField("revealValue", ops.Reveal(signer, 19)))
 			add("reveal/commitment-instead", withField("revealValue", ops.Commitment(signer, code)))
+			// a well-formed multihash of the right algorithm that carries only the first n bytes of the right digest
+			if rc, digest, err := mh.Decode(ops.Reveal(signer, code)); err == nil {
+				for _, n := range []int{0, 1, len(digest) / 2, len(digest) - 1} {
+					add(fmt.Sprintf("reveal/truncated-to-%d-digest-bytes", n), withField("revealValue", mh.Enc(mh.Raw(rc, digest[:n]))))
+				}
+				add("reveal/digest-with-a-zero-byte-appended", withField("revealValue", mh.Enc(mh.Raw(rc, append(append([]byte{}, digest...), 0)))))
+			}
 			add("reveal/empty", withField("revealValue", ""))
 			add("reveal/missing", withField("revealValue", nil))
 			// 6. delta substitution
